@@ -78,6 +78,14 @@ class LTwoSeq(LBase):
 
 
 @dataclass
+class LOptSeq(LBase):
+    """A sequence child field that may also be absent altogether."""
+
+    seq: tuple[LBase, ...] | None = None
+    lst: list[LBase] | None = None
+
+
+@dataclass
 class LFalsy(LLeaf):
     """A leaf that is falsy in a boolean context (e.g. an empty container node)."""
 
@@ -85,7 +93,7 @@ class LFalsy(LLeaf):
         return False
 
 
-LCLASSES: dict[str, type] = {c.__name__: c for c in (LBase, LLeaf, LSub, LTup, LList, LOpt, LReq, LMix, LNarrow, LFalsy, LAbs, LTwoSeq)}
+LCLASSES: dict[str, type] = {c.__name__: c for c in (LBase, LLeaf, LSub, LTup, LList, LOpt, LReq, LMix, LNarrow, LFalsy, LAbs, LTwoSeq, LOptSeq)}
 
 
 def _is_recipe(val: Any) -> bool:
